@@ -89,14 +89,14 @@ def tasks(tier, seed, selftest=False):
     small, mid, large = paths[:120], paths[120:180], paths[180:]
     for i in range(0, len(small), 12):
         T.append({"prop": PROP, "family": "-", "label": "models/small", "timebox": 15, "seed": seed,
-                  "params": {"mode": "models", "models": small[i:i + 12], "strats": ["bfs", "dfs"], "max_nodes": 6 if q else 12}})
+                  "params": {"mode": "models", "models": small[i:i + 12], "strats": ["bfs", "dfs"], "max_nodes": 12 if q else 24}})
     for i in range(0, len(mid), 3):
         T.append({"prop": PROP, "family": "-", "label": "models/medium", "timebox": 20 if q else 120, "seed": seed,
-                  "params": {"mode": "models", "models": mid[i:i + 3], "strats": ["bfs"] if q else ["bfs", "dfs"], "max_nodes": 3 if q else 8}})
+                  "params": {"mode": "models", "models": mid[i:i + 3], "strats": ["bfs", "dfs"], "max_nodes": 18 if q else 30}})
     if not q:
         for pth in large:
             T.append({"prop": PROP, "family": "-", "label": "models/large", "timebox": 150, "seed": seed,
-                      "params": {"mode": "models", "models": [pth], "strats": ["bfs"], "max_nodes": 4}})
+                      "params": {"mode": "models", "models": [pth], "strats": ["bfs", "dfs"], "max_nodes": 18}})
     return T
 
 
@@ -104,7 +104,7 @@ def main(tier, seed, t0, selftest=False):
     results = common.run_tasks(tasks(tier, seed, selftest))
     return common.finish(PROP, tier, seed, "model_checking", results, t0, selftest=selftest, functions=FUNCTIONS,
                          bounds={"families": "U2 exhaustive; U3 (3 variables, unrestricted) " + ("to exhaustion" if tier == "thorough" else "time-boxed slice per cube"),
-                                 "published models": "expanded nodes of a size-limited BFS/DFS expansion (quick: 120 small models x 6 nodes, 60 medium x 3; thorough: all 210): node closed under percolation (z3 least fixed point over all states), motifs are trap spaces, maximal, percolate to their child, and no trap space inside the node avoids all listed motifs (z3 over the validated Petri net); leaves of a limited expansion are not claimed minimal",
+                                 "published models": "expanded nodes of a size-limited BFS/DFS expansion (quick: 120 small models (size limit 12) and 60 medium (size limit 18), the root and the deepest expanded nodes, at least 6 per run; thorough: all 210): node closed under percolation (z3 least fixed point over all states), motifs are trap spaces, maximal, percolate to their child, and no trap space inside the node avoids all listed motifs (z3 over the validated Petri net); leaves of a limited expansion are not claimed minimal",
                                  "outside": "n>3 for the symbolic families; oracle list orders other than canonical/reversed"},
                          assumptions=["clingo enumerates exactly the subset-minimal/maximal models (checked on every representative)",
                                       "AEON Percolation.percolate_subspace = PERC (checked on every representative)",
